@@ -77,7 +77,52 @@ def params(kind, name):
     return out
 
 
+AINV = ["AEfficiency", "ALockStep", "AVarNonNegative", "AKeys", "AStoreBound", "AMargPredNormalised"]
+# the atomic specification on its own: deeper call sequences than the micro-step specification allows
+ABS = {
+    "sage_a": dict(MaxCalls=4),
+    "pfi_a": dict(Mode='"pfi"', MaxCalls=4),
+    "sage_w": dict(Kind='"welford"', StoreKind='"geometric"', ModelKind='"multi"', NInner=1, MaxCalls=3, AllowNoUpd="TRUE"),
+    "sage_p": dict(Strategy='"product"', NInner=1, MaxCalls=4, StoreKind='"uniform"'),
+    "sage_d3": dict(D=3, NInner=1, MaxCalls=3),
+    "sage_def": dict(Strategy='"default"', NInner=2, NOver=1, MaxCalls=4),
+    "pfi_w": dict(Mode='"pfi"', Kind='"welford"', Strategy='"product"', StoreKind='"batch"', NInner=1, MaxCalls=4),
+    "sage_q": dict(NInner=1, MaxCalls=4),
+}
+# refinement micro-step => atomic, per micro-step configuration (neg: the pre-repair commit order must NOT refine)
+REFINE = ["sage_a", "pfi_a", "sage_neg", "pfi_neg", "sage_b", "sage_c", "sage_d", "sage_e", "pfi_b", "pfi_c", "pfi_d",
+          "sage_o", "pfi_o", "sage_def", "pfi_def"]
+
+
+def write_abs(name, over):
+    d = dict(BASE)
+    d.update(over)
+    for k in ("CommitEarly", "MaxFaults"):
+        d.pop(k)
+    lines = ["SPECIFICATION BSpec", "CONSTANTS"]
+    lines += [" %s %s %s" % (k, "<-" if k == "Alpha" else "=", v) for k, v in d.items()]
+    lines += ["INVARIANT " + i for i in AINV] + ["PROPERTY AMonotone", "CHECK_DEADLOCK FALSE"]
+    with open(os.path.join(HERE, "MC_AbsExplainer_%s.cfg" % name), "w") as f:
+        f.write("\n".join(lines) + "\n")
+
+
+def write_refine(name, exists_form=False):
+    d = dict(BASE)
+    d.update(CONFIGS[name])
+    lines = ["SPECIFICATION RSpec", "CONSTANTS"]
+    lines += [" %s %s %s" % (k, "<-" if k == "Alpha" else "=", v) for k, v in d.items()]
+    lines += ["PROPERTY RefinesInit", "PROPERTY " + ("AbsSpec" if exists_form else "Refines"), "CHECK_DEADLOCK FALSE"]
+    with open(os.path.join(HERE, "Refine_IncExplainer_%s%s.cfg" % (name, "_ex" if exists_form else "")), "w") as f:
+        f.write("\n".join(lines) + "\n")
+
+
 if __name__ == "__main__":
+    for n, o in ABS.items():
+        write_abs(n, o)
+    for n in REFINE:
+        write_refine(n)
+    write_refine("sage_a", True)
+    write_refine("pfi_a", True)
     for n, o in CONFIGS.items():
         write("MC_IncExplainer", n, o, "Spec", INV, PROPS)
     for n, o in LOGS.items():
